@@ -94,6 +94,11 @@ CHECKS = {
     text="Filters.tla's EvenReduced/EvenMarkers are the property; Gen_EvenPoints enumerates curves on the n-1=8 (thorough 16) grid x reductions x knee subsets x (tx,ty) in {1/16,1/8,1/4}x{1/8,1/4,1/2} x extremes and the harness replays 380k calls demanding index-array equality, validity and strict increase; random float curves are judged by Trace_Filters with near-threshold cases classed ambiguous.",
     note="dyadic grids make ceil(pdx/(2tx)) exact; height profiles are a fixed list (stated in the evidence rule); empty knee sets outside the domain",
     ref="5/C14"),
+ "C08": dict(
+    technique="TLC model checking that the pipeline invariants follow from the stage guarantees for every choice the stages may make (Pipeline.tla; negative instance: duplicate index in the reduction) + event-by-event TLC trace validation of the demo composition over simplifier x detector x linkage x mode configurations (Trace_Pipeline)",
+    text="Pipeline.tla models each stage by what its own property guarantees (any strictly increasing knee list, RunMin, any subsequence, MapSpec) and TLC shows subsequence/height-monotonicity/strictly-increasing-mapped invariants for n<=6; the harness runs simplify -> multi_knee -> worst -> corner -> cluster -> mapping with the real functions (5 simplifiers x 5 detectors x 4 linkages x 4 modes, covering sample in quick, ~230 pipelines) and Trace_Pipeline evaluates the invariants after every stage: stage completes, filter output a subsequence of its input, heights non-increasing from the worst filter on, mapped indices strictly increasing, retained points, bit-identical coordinates.",
+    note="demo scripts not executed (argparse/matplotlib); heights compared exactly; curves up to a few hundred points",
+    ref="5/C08"),
 }
 
 PENDING = {}
